@@ -90,6 +90,7 @@ func (eng *Engine) verifyFunction(f *ssa.Function, ct *Contract) (res *FuncResul
 		}
 	}()
 	fr := &Frame{fc: fc, fn: f, vals: map[ssa.Value]*Term{}, tuples: map[ssa.Value][]*Term{}, addrs: map[ssa.Value]*Addr{}, isTop: true, ctr: ct}
+	eng.topFrame = fr
 	alloc0 := Const("alloc0", SInt)
 	st := &State{pc: True, heap: map[string]*Term{}, alloc: alloc0}
 	fc.assume(True, Op(">=", SBool, alloc0, IntLit64(0)))
